@@ -332,12 +332,16 @@ class Budget:
         g = impl_grad
         if g.kind == "L":
             p0, p1, p2 = g.geom
-            ext = max(min(math.hypot(p1[0] - p0[0], p1[1] - p0[1]), math.hypot(p2[0] - p0[0], p2[1] - p0[1])), 1e-9)
+            l1 = math.hypot(p1[0] - p0[0], p1[1] - p0[1])
+            l2 = max(math.hypot(p2[0] - p0[0], p2[1] - p0[1]), 1e-9)
+            cross = abs((p1[0] - p0[0]) * (p2[1] - p0[1]) - (p1[1] - p0[1]) * (p2[0] - p0[0]))
+            ext = max(cross / l2, 1e-9)  # length of the effective gradient vector P3 - P0
+            dv = 1.42 + 1.42 * l1 / l2  # rounding of p0/p1, plus p2's rounding turning the projection axis
             D = 0.0
             if p is not None:
                 q = aapply(g._inv or ainv(g.M), p)
                 D = math.hypot(q[0] - p0[0], q[1] - p0[1])
-            return 2 ** -13 + unit * (0.71 + 2.84 * D / ext + 2.84 * abs(t)) / ext
+            return 2 ** -13 + unit * (0.71 + dv * (D / ext + abs(t))) / ext
         c0, r0, c1, r1 = g.geom
         ext = max((r1 - r0) - math.hypot(c1[0] - c0[0], c1[1] - c0[1]), 1e-9)
         return 2 ** -13 + unit * (1.5 + 2.5 * abs(t)) / ext
